@@ -27,7 +27,7 @@ pub fn gen_graph(rng: &mut Rng, maxd: usize) -> (SparseMatrix, &'static str) {
     let nr = rng.range(1, maxd);
     let nc = rng.range(1, maxd);
     let mut h = SparseMatrix::new(nr, nc);
-    let fam = rng.below(7);
+    let fam = rng.below(10);
     let name = match fam {
         0 => {
             // forest: attach each new node to an earlier node of the other side
@@ -91,6 +91,88 @@ pub fn gen_graph(rng: &mut Rng, maxd: usize) -> (SparseMatrix, &'static str) {
             for _ in 0..e { h.insert(rng.below(nr), rng.below(nc)); }
             "sparse-random"
         }
+        6 => {
+            // the root column 0 on a long cycle whose arms carry shorter cycles avoiding it; entries inserted in random order
+            let k = nr.min(nc).max(3).min(nr).min(nc);
+            let mut entries: Vec<(usize, usize)> = Vec::new();
+            for j in 0..k { entries.push((j, j)); entries.push((j, (j + 1) % k)); }
+            // short cycles (4-cycles) hanging on the arms: duplicate a 2x2 block using spare rows/columns
+            let mut spare_r = k;
+            let mut spare_c = k;
+            for _ in 0..rng.range(1, 3) {
+                if spare_r >= nr || spare_c >= nc || k < 3 { break; }
+                let a = rng.range(1, k - 1); // a row on an arm (not adjacent to column 0 if possible)
+                let c1 = (a + 1) % k;
+                entries.push((a, spare_c)); entries.push((spare_r, spare_c)); entries.push((spare_r, c1));
+                spare_r += 1; spare_c += 1;
+            }
+            for i in (1..entries.len()).rev() { entries.swap(i, rng.below(i + 1)); }
+            for (r, c) in entries { if r < nr && c < nc { h.insert(r, c); } }
+            "root-cycle-with-short-cycles-on-arms-shuffled"
+        }
+        7 => {
+            // two clusters with short cycles (complete bipartite blocks), a root column joined to one row of each cluster, and a
+            // single cross edge between the clusters: the root lies on one long cycle whose two arms carry shorter cycles
+            let (ra, ca, rb, cb) = (rng.range(2, 3), rng.range(2, 3), rng.range(2, 3), rng.range(2, 3));
+            if nr >= ra + rb && nc >= 1 + ca + cb {
+                let mut entries: Vec<(usize, usize)> = Vec::new();
+                for r in 0..ra { for c in 0..ca { if rng.chance(5, 6) { entries.push((r, 1 + c)); } } }
+                for r in 0..rb { for c in 0..cb { if rng.chance(5, 6) { entries.push((ra + r, 1 + ca + c)); } } }
+                entries.push((rng.below(ra), 0));
+                entries.push((ra + rng.below(rb), 0));
+                entries.push((rng.below(ra), 1 + ca + rng.below(cb)));
+                // random relabelling of rows and columns, random insertion order
+                let mut rp: Vec<usize> = (0..nr).collect();
+                let mut cp: Vec<usize> = (0..nc).collect();
+                for i in (1..nr).rev() { rp.swap(i, rng.below(i + 1)); }
+                for i in (1..nc).rev() { cp.swap(i, rng.below(i + 1)); }
+                for i in (1..entries.len()).rev() { entries.swap(i, rng.below(i + 1)); }
+                for (r, c) in entries { h.insert(rp[r], cp[c]); }
+            }
+            "two-clusters-joined-through-root-and-cross-edge"
+        }
+        8 => {
+            // two arms from the root column, each a path of 0-2 hops ending in a 4-cycle; the far corners of the two 4-cycles
+            // are joined by one cross edge, so the only cycle through the root is long while each arm carries a short cycle
+            let (mut nrow, mut ncol) = (0usize, 1usize); // column 0 is the root
+            let mut entries: Vec<(usize, usize)> = Vec::new();
+            let pa = rng.below(3);
+            let pb = if pa % 2 == 0 { 1 } else { rng.below(2) * 2 };
+            let mut far: Vec<(bool, usize)> = Vec::new(); // (is_row, index)
+            for p in [pa, pb] {
+                // first hop: a row adjacent to the root
+                let mut cur_is_row = true;
+                let mut cur = nrow; nrow += 1;
+                entries.push((cur, 0));
+                for _ in 0..p {
+                    if cur_is_row { entries.push((cur, ncol)); cur = ncol; ncol += 1; } else { entries.push((nrow, cur)); cur = nrow; nrow += 1; }
+                    cur_is_row = !cur_is_row;
+                }
+                // 4-cycle cur - x1 - f - x2 - cur
+                if cur_is_row {
+                    let (x1, x2, f) = (ncol, ncol + 1, nrow); ncol += 2; nrow += 1;
+                    entries.extend([(cur, x1), (cur, x2), (f, x1), (f, x2)]);
+                    far.push((true, f));
+                } else {
+                    let (x1, x2, f) = (nrow, nrow + 1, ncol); nrow += 2; ncol += 1;
+                    entries.extend([(x1, cur), (x2, cur), (x1, f), (x2, f)]);
+                    far.push((false, f));
+                }
+            }
+            match (far[0], far[1]) {
+                ((true, r), (false, c)) | ((false, c), (true, r)) => entries.push((r, c)),
+                _ => {}
+            }
+            if nrow <= nr && ncol <= nc {
+                let mut rp: Vec<usize> = (0..nr).collect();
+                let mut cp: Vec<usize> = (0..nc).collect();
+                for i in (1..nr).rev() { rp.swap(i, rng.below(i + 1)); }
+                for i in (1..nc).rev() { cp.swap(i, rng.below(i + 1)); }
+                for i in (1..entries.len()).rev() { entries.swap(i, rng.below(i + 1)); }
+                for (r, c) in entries { h.insert(rp[r], cp[c]); }
+            }
+            "two-arms-each-ending-in-a-4-cycle-joined-at-far-corners"
+        }
         _ => {
             // the shape of defect D5: pendant path attached to a 4-cycle
             if nr >= 3 && nc >= 3 {
@@ -100,6 +182,14 @@ pub fn gen_graph(rng: &mut Rng, maxd: usize) -> (SparseMatrix, &'static str) {
             "pendant-path-on-4-cycle"
         }
     };
+    // half of the graphs are rebuilt with a random insertion order (the adjacency-list order drives the search order)
+    if rng.chance(1, 2) {
+        let mut entries: Vec<(usize, usize)> = h.iter_all().collect();
+        for i in (1..entries.len()).rev() { entries.swap(i, rng.below(i + 1)); }
+        let mut g = SparseMatrix::new(nr, nc);
+        for (r, c) in entries { g.insert(r, c); }
+        return (g, name);
+    }
     (h, name)
 }
 
